@@ -1,7 +1,7 @@
 // ---- part sschunk: codec/aead.rs (kinds, nonce generator), codec/shadowsocks.rs ----
 // ---------------------------------------------------------------- real code: codec/aead.rs
 #[derive(Default, Clone, Copy, PartialEq, Eq)]
-enum CipherKind {
+pub enum CipherKind {
     Aes128Gcm,
     Aes256Gcm,
     ChaCha20Poly1305,
@@ -33,7 +33,7 @@ impl CipherKind {
     }
 }
 
-struct IncreasingNonceGenerator {
+pub struct IncreasingNonceGenerator {
     nonce: [u8; 12],
 }
 
@@ -78,7 +78,7 @@ impl IncreasingNonceGenerator {
 }
 
 // ---------------------------------------------------------------- real code: codec/shadowsocks.rs
-struct Authenticator {
+pub struct Authenticator {
     method: CipherMethod,
     nonce_generator: IncreasingNonceGenerator,
 }
@@ -156,7 +156,7 @@ impl Authenticator {
     }
 }
 
-struct ChunkEncoder {
+pub struct ChunkEncoder {
     payload_limit: usize,
     auth: Authenticator,
 }
@@ -252,7 +252,7 @@ enum DecodeState {
     Payload(usize),
 }
 
-struct ChunkDecoder {
+pub struct ChunkDecoder {
     auth: Authenticator,
     state: DecodeState,
 }
